@@ -115,3 +115,19 @@ P('C16', 'other',
   'difference), their buffers are created empty on first observation, nothing in signals/ reaches a historical range. Not decided: numerical '
   'equality of the pandas/numpy pipelines with the definitions.')
 TECHNIQUE['C16'] = 'static analysis: exhaustive decision table of the event loop, writer/reader key-offset agreement, formula-slot matching on symbolic terms'
+
+P('C12', 'other',
+  'Static rules on DailyBusinessDaySimulationEngine. S1 business_days is written once, from pd.date_range(start, end, freq=business day) '
+  'over the unmodified constructor arguments. S2 __iter__ evaluated as a decision table over the four pre/post flag combinations: per day '
+  'the yields are exactly [pre 00:00] open 14:30, close 21:00 [post 23:59] in that order, decided by the two flags alone, every event stamped '
+  'with that day\'s year/month/day in UTC, times of day strictly increasing. S3 decision table over the ordering of end and start: earlier '
+  '-> ValueError, equal and later -> accepted. Not decided: that pandas\' business-day range yields exactly the Monday-Friday dates.')
+TECHNIQUE['C12'] = 'static analysis: decision tables over flags and orderings on symbolic summaries, constant tables of event times, API-argument rule'
+P('C13', 'other',
+  'Static rules on the four rebalance classes and the session wiring. S1 frequency slots: weekly = pd.date_range(start, end, freq=\'W-<weekday>\'), '
+  'daily = business days, end of month = \'BME\' (alias \'BM\'), each over the unmodified range, unfiltered, stamped \'<date> <market time>\' UTC; '
+  'buy-and-hold = start if business day else start + BusinessDay(). S2 weekday guard as a decision table over names: exactly MON..FRI '
+  '(case-insensitive) accepted, anything else ValueError. S3 the three _set_market_time siblings map pre_market -> 14:30:00 else 21:00:00. S4 '
+  '14:30 and 21:00 are unconditional clock events, the clock covers the business days of the same unmodified range, and the session builds '
+  'clock and schedule from the same (start_dt, end_dt) through a 4-row table. Not decided: pandas calendar semantics (completeness of dates).')
+TECHNIQUE['C13'] = 'static analysis: frequency/argument slot matching on symbolic terms, decision tables for guards, constant agreement between schedule and clock'
